@@ -1,13 +1,13 @@
 """C19 Tree navigation API agrees with a set-based model of the tree."""
 from .. import model, sweep
 from ..runner import Result, scratch
-from ..bridge import T, build, quiet, build_via_export, perturb, extract
+from ..bridge import T, build, quiet, build_via_export, build_via_tiger, perturb, extract
 
 ID = 'C19'
 LEVEL = 'exploration'
 TECHNIQUE = 'bounded exhaustive enumeration of tree shapes x child-list orders, set-model oracle'
 
-ORDERS = [None, 'rev', 1, 'export']
+ORDERS = [None, 'rev', 1, 'export', 'tiger']
 
 
 def plan(tier, seed):
@@ -114,6 +114,8 @@ def check_tree(mt_json, order):
     try:
         if order == 'export':
             t = build_via_export(mt, scratch())
+        elif order == 'tiger':
+            t = build_via_tiger(mt, scratch())
         else:
             t = build(mt, child_order=order)
         compare_live(t, mt, case, out, 'fresh tree')
